@@ -8,6 +8,8 @@ composition / restriction, and build verdicts for overlap.
 import copy
 import itertools
 
+import xmlschema
+
 from vf import core
 from vf.oracles import wild
 from vf.oracles.wild import TNS, NAME_UNIVERSE, PREFIX, denote_set, attr_xml
@@ -329,7 +331,9 @@ def _errors(t):
     for e in errs:
         if id(e) not in seen:
             seen.add(id(e))
-            out.append(str(getattr(e, 'message', e)))
+            # model errors are recognised by their class, not by the wording of the message
+            out.append(('UPA [XMLSchemaModelError] ' if isinstance(e, xmlschema.XMLSchemaModelError) else '')
+                       + str(getattr(e, 'message', e)))
     return out
 
 
